@@ -184,6 +184,36 @@ PROPS = {
 }
 
 
+# ---- generator families and kinds added in the fourth session (function-level kind "unit", seeding round 6, F24-F26)
+_UNIT_RESTORE = ("function-level kind 'unit' through the cfg(sdjwt_verif) hooks of /repo: restore_disclosure (= Model2.restore1), restore_disclosures "
+                 "(= Restore2.restore_disclosures; with an empty list = check_digests), remove_digests / remove_all_digests (= Restore2.remove_digests / strip), "
+                 "sd_contains_digest, declared_hash_alg, format_path, drop_kb on reference-issued payloads (a third of them with one structural defect), disclosure lists "
+                 "with subsets, permutations, repetitions and junk, and on the tree at every stage of a restoration - outcome and result (tree before stripping, path "
+                 "list in order, restored flag) must equal the Gallina function's; switched off, with a note, when the hooks do not compile against the tree")
+_UNIT_ISSUER = ("function-level kind 'unit': build_disclosure folded over a path list on one working copy (valid markings, bad / repeated / reversed paths, reserved "
+                "names planted), reject_reserved_names, build_decoys - every step's working copy and disclosure must be reproduced by Issuer2.build_disclosure / "
+                "has_reserved / add_decoys from the read-back salt, insertion position and decoy digests")
+_ADDED4 = {
+    "C01": _UNIT_RESTORE + "; " + _UNIT_ISSUER + "; arbitrary finite doubles planted into one claims document in five (a JSON number comes back as the same number: finding F24)",
+    "C02": _UNIT_RESTORE + "; one unbound case in four is a session on one Holder (build, redact more, build, redact more, build); arbitrary doubles",
+    "C03": _UNIT_RESTORE + "; family dup_nested: a digest embedded twice with one copy inside the value of a recursive disclosure P (or both inside P), its own disclosure absent, once or twice, six orders - every list containing P must be rejected; arbitrary doubles",
+    "C04": "function-level kind 'unit': build_validation on every reachable policy and 400 arbitrary ones, the options handed to the JWT library must equal Jwt.build_validation",
+    "C05": _UNIT_RESTORE,
+    "C06": _UNIT_ISSUER + "; one case in three is a session on one Holder (build, redact more, build, redact more, build): what was redacted after an earlier build is withheld by the later ones",
+    "C07": _UNIT_ISSUER + "; the conform kind encodes 1-3 times on the same Issuer (one case in five), one case in twelve after a failed first attempt with a key of the wrong family: every token is judged",
+    "C08": _UNIT_RESTORE + "; one foreign presentation in three is key-bound: the KB-JWT the library's holder attaches is judged with the independent hash under the declared algorithm (sha-256/384/512); arbitrary doubles",
+    "C09": _UNIT_RESTORE + "; one case in five calls key_binding twice on the same Holder with different audience / algorithm: the KB-JWT is built from the parameters supplied last",
+    "C11": "function-level kind 'unit': build_validation on every reachable policy and 400 arbitrary ones",
+    "C12": _UNIT_RESTORE + "; family dup_nested (see C03)",
+    "C13": _UNIT_ISSUER + "; every issued token with .decoy(max) carries between 1 and max decoys (decoy_oracle, every encode call)",
+    "C14": _UNIT_ISSUER + "; decoy_oracle: with .decoy(max >= 1) every SD-JWT of the issuer object, the first and every later one, carries between 1 and max decoy digests",
+    "C15": "one tagged document in six spells the tag differently (%TAG !x! !s + !x!d, %TAG ! !s + !d, !s%64); mapping keys that are numbers, booleans or null above tagged keys and items (finding F25); documents whose keys collide once the tag is removed must be refused (finding F26)",
+    "C16": "crit entries drawn from extension names, claim names and the names of the registered header parameters themselves",
+}
+for _k, _v in _ADDED4.items():
+    PROPS[_k]["rule"] += " Added in the fourth session: " + _v + "."
+TRUSTED_BASE.append("hooks in /repo (cfg sdjwt_verif; src/verif_hooks.rs and a verif_hooks module at the end of issuer.rs / decoding.rs; build.rs declares the cfg name): thin wrappers that make crate-private functions callable, no behaviour of their own")
+
 def matches(k, line, verdict, wire_try):
     """does known finding k (an entry of known_findings.json) cover this failing case?"""
     m = k.get("matcher", {})
